@@ -51,6 +51,8 @@ static rdesc pick(rng& g)
     int v = (int) g.below(4);
     r.vn = vs[v][0]; r.vd = vs[v][1];
     if (r.nz == 0) { r.e4 = 0; r.vn = 0; r.vd = 1; } // a result without information is genuinely empty: sum = sumsq = 0
+    // now and then the result of an iteration without any calls (its own estimate is 0 / 0; the variance-weighted combination ignores it)
+    if (r.nz == 0 && g.below(3) == 0) { r.N = 0; r.fin = 0; }
     return r;
 }
 
